@@ -68,6 +68,9 @@ func GenWorld(rng *rand.Rand, o WorldOpts) *World {
 			all = []string{"\x00\x0b", "\x00\x01", "bb", "\x01\x10"}
 		}
 		w.Locs = all[:1+rng.Intn(3)]
+		if all[0] != "aa" {
+			w.Locs = all[:2+rng.Intn(2)] // keep the colliding pair together
+		}
 		if rng.Intn(5) == 0 {
 			w.Locs = all
 		}
